@@ -220,8 +220,12 @@ def run(ctx):
         # trace: the RNG state at the first generator entry must be the same for every history (reseed happened after the last foreign event)
         if entry_fps:
             ctx.tally("c04:trace:reseed-before-first-generator-entry", K)
-            ctx.check(len(entry_fps) == 1, "C04/rng-state-at-first-generator-entry-depends-on-history",
-                      f"{len(entry_fps)} distinct RNG fingerprints at first generator entry over {K} histories", dict(spec=spec))
+            # diagnostic only (DESIGN C04): an implementation that feeds its generators from a private, seeded RNG would
+            # legitimately enter them with a history-dependent *global* state, so this is reported, not judged
+            if len(entry_fps) == 1:
+                ctx.tally("c04:trace:global-rng-identical-at-entry")
+            else:
+                ctx.tally("c04:trace:global-rng-differs-at-entry(not judged)")
         # verdict for this config
         vals = sources[spec["key"]]
         groups: dict[str, list[str]] = {}
